@@ -82,6 +82,9 @@ func propC08(c *Ctx, r *Report) {
 	r.Clauses = append(r.Clauses, "syntax-tree walkers (E3): every function reachable from the parser / lowerer entry points that walks the parser's tree (a type switch over Expr, Stmt, Type or Decl nodes using every child in >= 3/4 of its arms) uses every child node of every variant it has an arm for and, when it has no default arm, has an arm for every variant that has children (a declaration referenced only through an unvisited child is ordered after its user and the valid program is rejected)")
 	c.runFrontendASTWalkers(r, "frontend")
 	r.floor("frontend.astwalkers", 8)
+	r.Clauses = append(r.Clauses, sameFieldClause)
+	c.runSameField(r, "shape.samefield", inPkgs("wgsl", "ir"))
+	r.floor("shape.samefield", 3)
 	r.Clauses = append(r.Clauses, "block-scoped local names in dependency ordering (E7): the function of the parser's dependency collector that walks the statements of a block gives them a set of local names of its own, so a name declared inside a block does not hide a module-scope declaration after the block (acceptance must not depend on declaration order)")
 	c.runDepBlockScope(r, "scope.depblock")
 	r.floor("scope.depblock", 1)
